@@ -291,6 +291,10 @@ def bmp_load_case(rng):
     pf = rng.choice([-1, 0, 1, 2, 3, 4, 5, 6, 7, 8, 9, 10, 11])
     mp = rng.choice([0, 1 << 20, 40, 12, 4096]) if "-mut" not in tag and "-flip" not in tag else rng.choice([4096, 65536])
     fam = tag.split("-")[0] + ("-mut" if ("-mut" in tag or "-trunc" in tag or "-flip" in tag) else "")
+    if rng.chance(1, 5):
+        bits, prec = rng.choice([8, 12, 16]), rng.range(2, 16)
+        return ("loadx %d %d %d %d %d %d %s" % (bits, prec, pf, rng.below(2), rng.choice([1, 2, 4, 8]), mp, data.hex()), fam,
+                {"prec": 8, "bits": bits, "maxpixels": mp})
     return ("load 8 %d %d %d %d %s" % (pf, rng.below(2), rng.choice([1, 2, 4, 8]), mp, data.hex()), fam,
             {"prec": 8, "maxpixels": mp})
 
@@ -451,7 +455,66 @@ def cj_case(rng):
     mp = rng.choice([1 << 20, 1 << 20, 4096, 50, 16])
     if fam == "random" and rng.chance(1, 4):
         tga = 1
-    return "cj %d %d %s" % (mp, tga, d.hex()), "cj-" + fam, {"maxpixels": mp}
+    prec = 8 if rng.chance(3, 5) else rng.range(2, 16)
+    return "cjx %d %d %d %s" % (mp, tga, prec, d.hex()), "cj-" + fam, {"maxpixels": mp, "prec": prec}
+
+
+def eff_precision(bits, prec, first):
+    """data precision of the samples tj3LoadImage<bits> returns (documented behaviour: TJPARAM_PRECISION applies to
+    PBMPLUS files only, and only when it fits the entry point's sample type)"""
+    if first == 0x50:
+        lo = 2 if bits == 8 else bits - 3
+        return prec if lo <= prec <= bits else bits
+    return 8 if first == 0x42 else bits
+
+
+FAMILIES = ["P2", "P3", "P5", "P6", "bmp8", "bmp24", "bmp32", "gif", "tga"]
+
+
+def family_file(rng, fam, prec, clean):
+    """(bytes, is_targa_file) of one format family; clean = no built-in mutation"""
+    for _ in range(40):
+        if fam[0] == "P":
+            d, tag, _ = pnm_file(rng, prec if 2 <= prec <= 16 else 8)
+            ok = tag.startswith(fam) and (not clean or "-" not in tag)
+        elif fam.startswith("bmp"):
+            d, tag = bmp_file(rng)
+            ok = tag.startswith(fam + "-") and (not clean or not ("-mut" in tag or "-trunc" in tag or "-flip" in tag))
+        elif fam == "gif":
+            d, ok = gif_file(rng), True
+        else:
+            d, ok = tga_file(rng), True
+        if ok:
+            return d
+    return d
+
+
+def matrix_cases(rng, n_extra):
+    """EVERY format family presented to EVERY entry point / precision: tj3LoadImage8/12/16 x TJPARAM_PRECISION 2..16
+    and the cjpeg front end x -precision 2..16; one clean file per cell, then random cells with mutated files"""
+    out = []
+
+    def one(fam, entry, prec, clean):
+        d = family_file(rng, fam, prec, clean)
+        if not clean and rng.chance(1, 2):
+            d = mutate(rng, d, 30)
+        if entry == "cj":
+            tga = 1 if fam == "tga" and not (d[:1] == b"\x00" and rng.chance(1, 2)) else 0
+            mp = rng.choice([1 << 20, 1 << 20, 4096])
+            out.append(("cjx %d %d %d %s" % (mp, tga, prec, d.hex()), "mx-cj-" + fam, {"maxpixels": mp, "prec": prec}))
+        else:
+            pf = rng.choice([-1, -1, -1, 0, 1, 6, 7, 11])
+            mp = rng.choice([1 << 20, 1 << 20, 4096])
+            out.append(("loadx %d %d %d %d %d %d %s" % (entry, prec, pf, rng.below(2), rng.choice([1, 4]), mp, d.hex()),
+                        "mx-tj%d-%s" % (entry, fam),
+                        {"maxpixels": mp, "prec": eff_precision(entry, prec, d[0] if d else 0), "bits": entry}))
+    for fam in FAMILIES:
+        for entry in (8, 12, 16, "cj"):
+            for prec in range(2, 17):
+                one(fam, entry, prec, True)
+    for _ in range(n_extra):
+        one(rng.choice(FAMILIES), rng.choice([8, 12, 16, "cj", "cj"]), rng.range(2, 16), rng.chance(1, 3))
+    return out
 
 
 def rt_cases(rng, n_extra):
@@ -486,6 +549,8 @@ def judge_load(line, impl, meta):
         return ("returned %d samples for a %dx%d image of pixel format %d" % (len(s), w, h, pf), "sample-count")
     if s and max(s) > mx:
         return ("returned sample %d exceeds 2^%d-1" % (max(s), meta["prec"]), "sample-out-of-range")
+    if s and "bits" in meta and max(s) > (1 << meta["bits"]) - 1:
+        return ("returned sample %d does not fit the %d-bit sample type of the entry point" % (max(s), meta["bits"]), "sample-type")
     if meta["maxpixels"] and w * h > meta["maxpixels"]:
         return ("image of %dx%d pixels accepted with a limit of %d" % (w, h, meta["maxpixels"]), "pixel-limit")
     return None
@@ -493,14 +558,15 @@ def judge_load(line, impl, meta):
 
 def run(ctx):
     rng = ctx.rng
-    if not ctx.regen(["Pnm"]):
-        # core.regen removes gen/GenPnm.v when the translator fails; a compiled file left from an
-        # earlier run would still satisfy make, so remove it as well (request to lead: do this in core)
-        for ext in (".vo", ".vos", ".vok", ".glob"):
-            try:
-                os.remove(os.path.join(core.COQ, "gen", "GenPnm" + ext))
-            except OSError:
-                pass
+    for g in ("Pnm", "ImgPrec"):
+        if not ctx.regen([g]):
+            # core.regen removes gen/Gen<g>.v when the translator fails; a compiled file left from an
+            # earlier run would still satisfy make, so remove it as well (request to lead: do this in core)
+            for ext in (".vo", ".vos", ".vok", ".glob"):
+                try:
+                    os.remove(os.path.join(core.COQ, "gen", "Gen" + g + ext))
+                except OSError:
+                    pass
     ctx.prove()
     drv = ctx.model_driver()
     flavours = ["simd", "asan"]
@@ -520,7 +586,14 @@ def run(ctx):
                 l = l.strip()
                 if l and not l.startswith("#"):
                     f = l.split()
-                    meta = {"prec": int(f[1]), "maxpixels": int(f[5])} if f[0] == "load" else {"prec": int(f[1]) if f[0] != "cj" else 8, "maxpixels": 0}
+                    if f[0] == "load":
+                        meta = {"prec": int(f[1]), "maxpixels": int(f[5])}
+                    elif f[0] == "loadx":
+                        meta = {"prec": eff_precision(int(f[1]), int(f[2]), int(f[7][:2], 16) if len(f) > 7 else 0), "bits": int(f[1]), "maxpixels": int(f[6])}
+                    elif f[0] == "cjx":
+                        meta = {"prec": int(f[3]), "maxpixels": int(f[1])}
+                    else:
+                        meta = {"prec": int(f[1]) if f[0] != "cj" else 8, "maxpixels": 0}
                     cases.append((l, "corpus-" + os.path.splitext(fn)[0], meta))
     for i in range(ctx.n(8000, 100000)):
         cases.append(pnm_load_case(rng, small=not rng.chance(1, 15)))
@@ -531,9 +604,47 @@ def run(ctx):
     for i in range(ctx.n(2500, 40000)):
         cases.append(bmp_load_case(rng))
     cases += rt_cases(rng, ctx.n(500, 6000))
-    for i in range(ctx.n(5000, 60000)):
+    for i in range(ctx.n(2500, 40000)):
         cases.append(cj_case(rng))
+    cases += matrix_cases(rng, ctx.n(1200, 20000))
     return run_cases(ctx, cases, exes, drv, flavours)
+
+
+def run_lines(ctx, exe, scratch, lines, env, fork, fl):
+    """one result line per input line; without fork a dying process is restarted after the case that killed it
+    (the index of that case is the number of lines it had printed); returns (outputs, crashes)"""
+    outs, crashes, start, restarts = [], [], 0, 0
+    while start < len(lines):
+        inp = ("\n".join(lines[start:]) + "\n").encode()
+        rc, out, err = sh2([exe, scratch] + (["fork"] if fork else []), input=inp, timeout=3000, env=env)
+        got = out.decode("utf-8", "replace").split("\n")
+        if got and got[-1] == "":
+            got.pop()
+        got = got[:len(lines) - start]
+        if rc == 0 and len(got) == len(lines) - start:
+            outs += got
+            if "ERROR: " in err or "runtime error" in err:
+                crashes.append((None, "sanitizer report without a crash: " + " ".join(err.split())[:300], err))
+            break
+        # the case after the last complete line killed the process
+        outs += got
+        idx = start + len(got)
+        if got and got[-1] == "TIMEOUT":
+            crashes.append((idx - 1, "TIMEOUT", err))
+        elif idx < len(lines):
+            m = [l for l in err.split("\n") if "ERROR: " in l or "runtime error" in l]
+            outs.append("CRASH rc=%d %s" % (rc, (m[0] if m else " ".join(err.split())[-200:])[:300]))
+            crashes.append((idx, outs[-1], err))
+            idx += 1
+        else:       # all lines answered but a non-zero exit (leak report at exit)
+            crashes.append((None, "non-zero exit %d after the last case: %s" % (rc, " ".join(err.split())[:300]), err))
+            break
+        start = idx
+        restarts += 1
+        if restarts > 60:
+            outs += ["<not run>"] * (len(lines) - len(outs))
+            break
+    return outs, crashes
 
 
 def run_cases(ctx, cases, exes, drv, flavours):
@@ -543,24 +654,31 @@ def run_cases(ctx, cases, exes, drv, flavours):
     env = {"ASAN_OPTIONS": "allocator_may_return_null=1:detect_leaks=1:abort_on_error=0", "UBSAN_OPTIONS": "print_stacktrace=1"}
     outs = {}
     for fl, exe in exes.items():
-        ctx.log("running %d cases through the %s build" % (len(cases), fl))
-        rc, out, err = sh2([exe, scratch], input=inp, timeout=3000, env=env)
-        lines = out.decode("utf-8", "replace").split("\n")
-        if lines and lines[-1] == "":
-            lines.pop()
-        if rc != 0 or len(lines) < len(cases):
-            idx = min(len(lines), len(cases) - 1)
-            if lines and lines[-1] == "TIMEOUT":
-                idx = len(lines) - 1
-                what = "loader did not terminate within the time cap"
-            else:
-                what = "crash / sanitizer report (%s build, rc=%d): %s" % (fl, rc, " ".join(err.split())[:300])
-            ctx.violation(what, {"case": cases[idx][0], "stream": cases[idx][1], "meta": cases[idx][2], "flavour": fl, "stderr": err[-3000:]},
-                          signature="crash:" + cases[idx][1])
-            lines += ["<no output>"] * (len(cases) - len(lines))
-        elif "ERROR: " in err or "runtime error" in err:
-            ctx.violation("sanitizer report (%s build): %s" % (fl, " ".join(err.split())[:300]),
-                          {"case": "", "stream": "sanitizer", "stderr": err[-3000:]}, signature="sanitizer-report")
+        # sanitizer build: the entry-point matrix runs one forked child per case, so that a crash is
+        # attributed to its case and the following cases still run
+        forked = [i for i, c in enumerate(cases) if fl == "asan" and c[0].startswith(("loadx ", "cjx "))]
+        fset = set(forked)
+        plain = [i for i in range(len(cases)) if i not in fset]
+        lines = [None] * len(cases)
+        for idxs, fork in ((plain, False), (forked, True)):
+            if not idxs:
+                continue
+            ctx.log("running %d cases through the %s build%s" % (len(idxs), fl, " (forked child per case)" if fork else ""))
+            got, crashes = run_lines(ctx, exe, scratch, [cases[i][0] for i in idxs], env, fork, fl)
+            for k, i in enumerate(idxs):
+                lines[i] = got[k] if k < len(got) else "<not run>"
+            for k, what, err in crashes:
+                ci = idxs[k] if k is not None else None
+                c = cases[ci] if ci is not None else ("", "process", {})
+                ctx.violation(("loader did not terminate within the time cap" if what == "TIMEOUT" else
+                               "crash / sanitizer report (%s build): %s" % (fl, what)),
+                              {"case": c[0], "stream": c[1], "meta": c[2], "flavour": fl, "stderr": err[-3000:]},
+                              signature="crash:" + c[1])
+        for i, l in enumerate(lines):       # forked children report their own death
+            if l.startswith("CRASH ") and i in fset:
+                c = cases[i]
+                ctx.violation("crash / sanitizer report (%s build, forked child): %s" % (fl, l[:300]),
+                              {"case": c[0], "stream": c[1], "meta": c[2], "flavour": fl}, signature="crash:" + c[1])
         outs[fl] = lines
     mlines = None
     if drv:
@@ -579,12 +697,15 @@ def run_cases(ctx, cases, exes, drv, flavours):
         impl = ref[i]
         cmd = line.split(" ", 1)[0]
         bad = None
-        if cmd == "load":
+        dead = impl.startswith(("CRASH", "TIMEOUT", "<no"))
+        if dead:
+            bad = None          # already reported with the process
+        elif cmd in ("load", "loadx"):
             bad = judge_load(line, impl, meta)
         elif cmd == "rt":
             if not impl.startswith("rt ok "):
                 bad = ("save/load round trip failed: " + impl[:80], "roundtrip")
-        elif cmd == "cj":
+        elif cmd in ("cj", "cjx"):
             f = impl.split()
             if len(f) >= 3 and f[1] == "ok":
                 if meta["maxpixels"] and int(f[2]) * int(f[3]) > meta["maxpixels"]:
@@ -598,22 +719,31 @@ def run_cases(ctx, cases, exes, drv, flavours):
             ctx.violation(bad[0], {"case": line, "stream": kind, "meta": meta, "impl": impl[:2000]}, signature=bad[1] + ":" + kind)
         for fl in flavours[1:]:
             a, b = impl, outs[fl][i]
-            if cmd == "cj":        # checksum of a failed/partial read is not compared
+            if cmd in ("cj", "cjx"):        # checksum of a failed/partial read is not compared
                 a, b = " ".join(a.split()[:5]), " ".join(b.split()[:5])
-            if a != b and b != "<no output>" and impl != "<no output>":
+            if a != b and not dead and not b.startswith(("CRASH", "TIMEOUT", "<no")):
                 ctx.violation("builds disagree (%s vs %s)" % (flavours[0], fl),
                               {"case": line, "stream": kind, "meta": meta, flavours[0]: impl[:1000], fl: outs[fl][i][:1000]},
                               signature="build-disagree:" + kind)
-        if mlines is not None and cmd in ("load", "save") and not mlines[i].startswith("skip"):
+        if mlines is not None and cmd == "cjx" and not dead:
+            # precision verdict of the reader selection: BAD_PRECISION exactly when the generated rule rejects
             compared += 1
-            if mlines[i] != impl and impl != "<no output>":
+            mv, iv = mlines[i], impl == "cj err BADPREC"
+            if (mv == "cjx BADPREC") != iv and mv in ("cjx BADPREC", "cjx PASS"):
+                disagree += 1
+                if disagree <= 3:
+                    ctx.log("model/impl disagree on", kind, "\n  case :", line[:200], "\n  model:", mv, "\n  impl :", impl[:200])
+                ctx.broken_tie("correspondence:" + kind, "precision acceptance differs on: %s || model=%s || impl=%s" % (line[:400], mv, impl[:200]))
+        if mlines is not None and cmd in ("load", "loadx", "save") and not mlines[i].startswith("skip") and not dead:
+            compared += 1
+            if mlines[i] != impl:
                 disagree += 1
                 if disagree <= 3:
                     ctx.log("model/impl disagree on", kind, "\n  case :", line[:200], "\n  model:", mlines[i][:200], "\n  impl :", impl[:200])
                 if not bad:
                     ctx.broken_tie("correspondence:" + kind,
                                    "model and implementation differ on: %s || model=%s || impl=%s" % (line[:400], mlines[i][:200], impl[:200]))
-        oc = " ".join(impl.split()[:3 if cmd == "cj" else 2]) if not impl.startswith(("ok", "bytes", "rt ok")) else impl.split()[0] + (" ok" if cmd == "rt" else "")
+        oc = " ".join(impl.split()[:3 if cmd in ("cj", "cjx") else 2]) if not impl.startswith(("ok", "bytes", "rt ok")) else impl.split()[0] + (" ok" if cmd == "rt" else "")
         outcomes.setdefault(kind, {})
         outcomes[kind][oc] = outcomes[kind].get(oc, 0) + 1
         ctx.count(kind, 1, (kind, impl[:120]))
@@ -625,10 +755,11 @@ def run_cases(ctx, cases, exes, drv, flavours):
     ctx.cov["rule"] = ("structured PNM files (P2/P3/P5/P6 x header mutations x comments x truncation x maxval 1..65535 x precision 2..16 x "
                        "12 pixel formats x bottom-up x alignment x pixel limit), random bytes, tj3SaveImage outputs, BMP 8/24/32-bit with "
                        "OS/2 and Windows headers and palettes, save/load round trips (PPM at every precision, BMP at 8 bits), GIF and Targa "
-                       "valid+mutated through the cjpeg front end; a case is distinct when (stream, implementation output) is distinct")
+                       "valid+mutated through the cjpeg front end at -precision 2..16; entry-point matrix: 9 format families x "
+                       "{tj3LoadImage8,12,16, cjpeg} x precision 2..16, clean and mutated, one forked child per case in the sanitizer build; a case is distinct when (stream, implementation output) is distinct")
     ctx.assume += ["correspondence is differential testing of the hand model against the real functions; it supports the tie, not the theorem",
                    "cjpeg itself is not built by the library build: its front end (file-type selection, start_input, get_pixel_rows, "
                    "jpeg_write_scanlines) is replayed inside the harness with the real rdppm/rdbmp/rdgif/rdtarga objects",
                    "GIF/Targa: crash-freedom, termination and pixel limit only (no model); CMYK round trips are not claimed (cmyk.h is lossy)"]
-    ctx.trusted += ["tools/gen_Pnm.py (regular-expression reading of rdppm.c / wrppm.c)",
+    ctx.trusted += ["tools/gen_Pnm.py, tools/gen_ImgPrec.py (regular-expression reading of rdppm.c / wrppm.c / jinit_read_* / tj3LoadImage / cjpeg.c)",
                     "rgb_to_cmyk / cmyk_to_rgb: double arithmetic re-implemented in ml/C18_driver.ml, a parameter of the Coq model"]
